@@ -957,6 +957,12 @@ class CallMixin(ExprMixin):
 
     def apply_model(self, st, cm, recv, args, kw, node, ftext):
         self.trusted_used.add("call-model %s: %s" % (cm.pattern, cm.note or "assumed behaviour"))
+        if cm.kwargs is not None and set(kw) - set(cm.kwargs):
+            raise Unsupported("call model %s does not cover keyword argument(s) %s (line %s)" % (
+                cm.pattern, sorted(set(kw) - set(cm.kwargs)), node.lineno))
+        if cm.nargs is not None and len(args) != cm.nargs:
+            raise Unsupported("call model %s is written for %d positional argument(s), the call has %d (line %s)" % (
+                cm.pattern, cm.nargs, len(args), node.lineno))
         env = {"self_": recv} if recv is not None else {}
         for i, a in enumerate(args):
             env["a%d" % i] = a
